@@ -128,3 +128,18 @@ Example ex_close_codec :
    5; 1; 1; 0; 0; 0; 1; 0; 0; 1; 0; 0; 0;
    5; 1; 1; 0; 0; 0; 1; 0; 0; 0; 0; 0; 0]%Z.
 Proof. vm_compute. reflexivity. Qed.
+
+(* non-vacuity of unix_close_ends_parked_calls, both loop flavours: a reachable closing state in which a woken,
+   uncancelled receive (resp. send) has its done-callback behind it, and its next step ends with ClosedResourceError
+   whatever the kernel would answer *)
+Example unix_close_ends_parked_calls_nonvacuous :
+  forall defer,
+  let s := final (cstep false defer) cinit
+             [CBegin DR; CStep DR ABlock; CBegin DS; CStep DS ABlock; CClose; CCallback DR; CCallback DS] in
+  creach defer s /\ c_closing s = true /\
+  ph s DR = CRun false /\ cb s DR = false /\ ph s DS = CRun false /\ cb s DS = false /\
+  snd (cstep false defer s (CStep DR ABlock)) = CEnd UClosed /\
+  snd (cstep false defer s (CStep DS AOk)) = CEnd UClosed.
+Proof.
+  intros defer. split; [eexists; reflexivity|]. destruct defer; vm_compute; auto 10.
+Qed.
